@@ -216,6 +216,15 @@ func runC05(x *X) {
 		lifecycle(x, c, "C05", ldepth, lops, false, func(t tabular.Table) lifeRenderer { return csv.Wrap(t) },
 			func(m *lifeModel, tags []string, out string, err error) { c05Judge(x, m.grid(), tags, out, err) })
 	})
+	long := LongTexts(`"`)
+	x.Explore("long-texts", ExploreOpts{ShardDepth: 2, Bound: fmt.Sprintf("7 positions x %d long texts (63..1025 bytes, with a quote in the middle/at the end, multi-byte, 40 lines)", len(long))}, func(c *Chooser) {
+		p := c05Positions[c.Choose(len(c05Positions))]
+		s := long[c.Choose(len(long))]
+		c.Logf("position=%s text of %d bytes", p.name, len(s))
+		x.Transition(1)
+		x.Nontrivial(fmt.Sprint(p.name, len(s), hashStr(s)))
+		c05Check(x, c, p.mk(s, "x"), []string{"position:" + p.name, "long_text"})
+	})
 	wide := WideGrids()
 	x.Explore("wide", ExploreOpts{Bound: "1 table of 56 rows and 4 tables of 10-13 columns (ragged, zero-cell row, separator, header added last, no header) x one hostile text in each column position in turn"}, func(c *Chooser) {
 		g0 := wide[c.Choose(len(wide))]
